@@ -9,6 +9,7 @@ pub mod c01;
 pub mod c02;
 pub mod c09;
 pub mod c10;
+pub mod c11;
 pub mod c12;
 pub mod c13;
 pub mod c14;
@@ -17,7 +18,7 @@ pub mod c19;
 pub mod c20;
 
 pub fn all() -> Vec<Box<dyn Check>> {
-    vec![Box::new(c01::C01), Box::new(c02::C02), Box::new(c09::C09), Box::new(c10::C10), Box::new(c12::C12), Box::new(c13::C13), Box::new(c14::C14), Box::new(c15::C15), Box::new(c19::C19), Box::new(c20::C20)]
+    vec![Box::new(c01::C01), Box::new(c02::C02), Box::new(c09::C09), Box::new(c10::C10), Box::new(c11::C11), Box::new(c12::C12), Box::new(c13::C13), Box::new(c14::C14), Box::new(c15::C15), Box::new(c19::C19), Box::new(c20::C20)]
 }
 
 pub fn by_id(id: &str) -> Option<Box<dyn Check>> {
